@@ -19,13 +19,106 @@ MASKING = 'emsarray.masking'
 NEGATIVE_OPS = (ast.Invert, ast.Not)
 
 
+def smear_facts(ctx, sm):
+    """smear_mask = OR over itertools.product(per-axis alternatives) of numpy.pad(arr, widths).
+
+    Accepted shapes of the OR: functools.reduce(operator.or_, <generator of pads>) or an
+    accumulator `acc = pad(arr, next(it)); for w in it: acc = acc | pad(arr, w)` (also `|=`).
+    The per-axis alternatives are {(1, 0), (0, 1)} for a selected axis and {(0, 0)} otherwise."""
+    flow = ctx.flow(sm)
+    arr_p, axes_p = sm.params[0], sm.params[1]
+    pads = [c for c in calls_in(sm, nested=True) if callee(ctx, sm, c) == 'numpy.pad']
+    if not pads:
+        return False, 'no numpy.pad call'
+    products = []
+    for c in pads:
+        if not (c.args and flow.canon(c.args[0]) == ('param', arr_p)) or len(c.args) < 2 or len(c.args) > 2 or any(k.arg not in (None,) for k in c.keywords if k.arg != 'mode' or const_value(k.value, None) != 'constant'):
+            return False, f"pad call {norm_text(c)} is not pad({arr_p}, widths) with the default zero fill"
+        hits = [n for n, _ in flow.expand(c.args[1]) if isinstance(n, ast.Call) and callee(ctx, sm, n) == 'itertools.product']
+        if len(hits) != 1:
+            return False, f"pad widths of {norm_text(c)} do not come from one itertools.product"
+        products.append(hits[0])
+    if any(pr is not products[0] for pr in products):
+        return False, 'pad widths come from different products'
+    pr = products[0]
+    if not (len(pr.args) == 1 and isinstance(pr.args[0], ast.Starred) and not pr.keywords):
+        return False, 'itertools.product is not applied to the unpacked per-axis alternatives'
+    alts = flow.resolve(pr.args[0].value)
+    if not (isinstance(alts, (ast.ListComp, ast.GeneratorExp)) and len(alts.generators) == 1 and not alts.generators[0].ifs
+            and isinstance(alts.generators[0].target, ast.Name) and flow.canon(alts.generators[0].iter) == ('param', axes_p)
+            and isinstance(alts.elt, ast.IfExp)):
+        return False, f"per-axis alternatives are not one choice per entry of {axes_p}"
+    tv = alts.generators[0].target.id
+    test, yes, no = alts.elt.test, alts.elt.body, alts.elt.orelse
+    if isinstance(test, ast.UnaryOp) and isinstance(test.op, ast.Not):
+        test, yes, no = test.operand, no, yes
+    def as_set(e):
+        if isinstance(e, (ast.List, ast.Tuple)):
+            vals = [const_value(x, None) if not isinstance(x, (ast.Tuple, ast.List)) else tuple(const_value(y, None) for y in x.elts) for x in e.elts]
+            return sorted(vals, key=repr), len(vals)
+        return None, 0
+    ys, yn = as_set(yes)
+    ns, nn = as_set(no)
+    if not (isinstance(test, ast.Name) and test.id == tv and ys == sorted([(1, 0), (0, 1)], key=repr) and yn == 2 and ns == [(0, 0)] and nn == 1):
+        return False, f"alternatives are {norm_text(yes)} when selected, {norm_text(no)} otherwise"
+    # the OR
+    rets = sm.returns()
+    reduces = [c for c in calls_in(sm, nested=True) if callee(ctx, sm, c) == 'functools.reduce']
+    if reduces:
+        r = reduces[0]
+        gen = flow.resolve(r.args[1]) if len(r.args) >= 2 else None
+        ok = (len(reduces) == 1 and len(r.args) == 2 and dotted(r.args[0]) is not None
+              and ctx.p.canonical(sm.module.resolve(dotted(r.args[0]))) == 'operator.or_'
+              and isinstance(gen, (ast.GeneratorExp, ast.ListComp)) and len(gen.generators) == 1 and not gen.generators[0].ifs
+              and gen.elt in pads and len(pads) == 1
+              and any(n is pr for n, _ in flow.expand(gen.generators[0].iter))
+              and bool(rets) and all(flow.reaches(x.value, lambda n: n is r) for x in rets))
+        return ok, 'functools.reduce(operator.or_, pads over the product)' if ok else f"reduce form not recognised: {norm_text(r)[:80]}"
+    # accumulator form
+    loops = [n for n in walk_no_nested(sm.node) if isinstance(n, ast.For)]
+    for lp in loops:
+        if lp.orelse or not any(n is pr for n, _ in flow.expand(lp.iter)):
+            continue
+        body = [st for st in lp.body if not (isinstance(st, ast.Expr) and isinstance(st.value, ast.Constant))]
+        if len(body) != 1:
+            continue
+        st = body[0]
+        acc = term = None
+        if isinstance(st, ast.AugAssign) and isinstance(st.op, ast.BitOr) and isinstance(st.target, ast.Name):
+            acc, term = st.target.id, st.value
+        elif isinstance(st, ast.Assign) and len(st.targets) == 1 and isinstance(st.targets[0], ast.Name) and isinstance(st.value, ast.BinOp) \
+                and isinstance(st.value.op, ast.BitOr):
+            acc = st.targets[0].id
+            l, r_ = st.value.left, st.value.right
+            term = r_ if isinstance(l, ast.Name) and l.id == acc else (l if isinstance(r_, ast.Name) and r_.id == acc else None)
+        if acc is None or term not in pads:
+            continue
+        if not (isinstance(term.args[1], ast.Name) and isinstance(lp.target, ast.Name) and term.args[1].id == lp.target.id):
+            continue
+        inits = [n for n in walk_no_nested(sm.node) if isinstance(n, ast.Assign) and len(n.targets) == 1 and isinstance(n.targets[0], ast.Name)
+                 and n.targets[0].id == acc and n is not st]
+        if len(inits) != 1 or inits[0].value not in pads or len(pads) != 2:
+            continue
+        w0 = inits[0].value.args[1]
+        # the first term takes the first combination off the very iterator the loop then drains
+        if not (isinstance(w0, ast.Call) and dotted(w0.func) == 'next' and len(w0.args) == 1 and isinstance(w0.args[0], ast.Name)
+                and isinstance(lp.iter, ast.Name) and lp.iter.id == w0.args[0].id):
+            continue
+        itdef = flow.resolve(lp.iter)
+        if not (isinstance(itdef, ast.Call) and dotted(itdef.func) == 'iter' or itdef is pr):
+            continue
+        if rets and all(isinstance(x.value, ast.Name) and x.value.id == acc or flow.reaches(x.value, lambda n: isinstance(n, ast.Name) and n.id == acc) for x in rets):
+            return True, f"accumulator {acc} |= pad over the product, seeded with the first combination"
+    return False, 'the padded copies are not combined by a recognised OR over every combination'
+
+
 def run(ctx: Context) -> None:
     p = ctx.p
     base = p.cls(BASE)
     ctx.rule('R07.1', "every make_clip_mask queries self.strtree with predicate 'intersects' on the clip geometry itself", floor=6)
     ctx.rule('R07.2', "grid masks: the hits are written through a flat view of a freshly allocated (first grid dimension, second grid dimension) array, and the mask variable is declared on those dimensions in that order; the buffer dilation is applied exactly when buffer > 0 with size=buffer", floor=8)
     ctx.rule('R07.3', "blur_mask dilates with a centred symmetric window: pad width p = size, window [i, i + 2*size + 1) on the padded array per axis, one output per input cell in iteration (C) order, reshaped to the input shape", floor=5)
-    ctx.rule('R07.4', "edge / node masks: left is the face mask smeared along the second axis, back along the first, node along both; smear_mask ORs the two one-cell shifts on each selected axis", floor=4)
+    ctx.rule('R07.4', "edge / node masks: left is the face mask smeared along the second axis, back along the first, node along both; smear_mask ORs the two one-cell shifts on each selected axis", floor=5)
     ctx.rule('R07.5', "monotone construction: nothing derived from the hit set is negated, xor-ed, subtracted or compared for inequality on its way into the mask", floor=6)
     ctx.rule('R07.6', "meshes: one node-sharing ring per buffer step keeping the originals; kept edges / nodes are those of the kept faces' rows; every old-to-new table is numbered arange over a sorted, duplicate free index array", floor=10)
     ctx.assume("STRtree 'intersects' hit sets are monotone in the query geometry; numpy.nditer multi_index iterates in C order")
@@ -171,22 +264,19 @@ def run(ctx: Context) -> None:
 
     # ------------------------------------------------------------------ R07.4
     with ctx.section('R07.4'):
-        cm = ctx.func(f"{ARAKAWA}.c_mask_from_centres")
-        table = {}
-        for n in walk_no_nested(cm.node):
-            if isinstance(n, ast.Assign) and isinstance(n.value, ast.Call) and callee(ctx, cm, n.value) == f"{MASKING}.smear_mask":
-                axes = n.value.args[1]
-                table[norm_text(n.targets[0])] = ([const_value(e, None) for e in axes.elts] if isinstance(axes, (ast.List, ast.Tuple)) else None,
-                                                  norm_text(n.value.args[0]))
-        want = {'left_mask': ([False, True], cm.params[0]), 'back_mask': ([True, False], cm.params[0]), 'node_mask': ([True, True], cm.params[0])}
+        from .common import arakawa_mask_table
+        table = arakawa_mask_table(ctx)
+        cm = table['_fi']
+        ctx.need('R07.4', table['_call'] is not None, "c_mask_from_centres returns one xarray.Dataset of masks", cm)
+        want = {'face_mask': 'centres', 'left_mask': [False, True], 'back_mask': [True, False], 'node_mask': [True, True]}
         for name, w in want.items():
-            ctx.check('R07.4', table.get(name) == w, f"{name} = smear of the face mask along {['', 'the second axis', 'the first axis', 'both axes'][(2 if w[0][0] else 0) + (1 if w[0][1] else 0)]}",
-                      cm, cm.node, construct=f"{name}: smear_mask{table.get(name)}")
+            got = table.get(name, (None, None))[0]
+            what = 'the centre mask itself' if w == 'centres' else 'the smear of the centre mask along ' + ['', 'the second axis', 'the first axis', 'both axes'][(2 if w[0] else 0) + (1 if w[1] else 0)]
+            ctx.check('R07.4', got == w, f"{name} = {what}", cm, table['_call'], construct=f"{name}: {got}")
         sm = ctx.func(f"{MASKING}.smear_mask")
-        txt = ' '.join(norm_text(s) for s in sm.body)
-        ok = ("itertools.product(*([(1, 0), (0, 1)] if pad_axis else [(0, 0)] for pad_axis in pad_axes))" in txt
-              and "functools.reduce(operator.or_, (numpy.pad(arr, pad) for pad in paddings))" in txt)
-        ctx.check('R07.4', ok, "smear_mask ORs every combination of a one-cell shift before / after on the selected axes (array grows by one there)", sm, sm.node)
+        ok, why = smear_facts(ctx, sm)
+        ctx.check('R07.4', ok, "smear_mask ORs every combination of a one-cell shift before / after on the selected axes (array grows by one there)", sm, sm.node,
+                  construct=f"smear_mask: {why}")
 
     # ------------------------------------------------------------------ R07.5 polarity
     with ctx.section('R07.5 polarity'):
@@ -213,26 +303,28 @@ def run(ctx: Context) -> None:
     with ctx.section('R07.6 meshes'):
         um = ctx.func(f"{UGRID}.UGrid.make_clip_mask")
         flow = ctx.flow(um)
+        from ..pattern import Matcher
+        m = Matcher(ctx, um)
+        buf = um.params[2] if len(um.params) > 2 else 'buffer'
         loops = [n for n in walk_no_nested(um.node) if isinstance(n, ast.For)]
-        ok = False
-        if len(loops) == 1:
-            lp = loops[0]
-            ok = (norm_text(lp.iter) == 'range(buffer)' and len(lp.body) == 1 and norm_text(lp.body[0]) == 'face_indexes = buffer_faces(face_indexes, self.topology)')
+        lp = m.stmt(f"for $step in range({buf}):\n    $faces = buffer_faces($faces, self.topology)")
+        ok = lp is not None and len(loops) == 1
         ctx.check('R07.6', ok, "buffer_faces is applied exactly `buffer` times, each time to the previous result", um, loops[0] if loops else um.node)
         rets = um.returns()
-        ok = bool(rets) and all(norm_text(r.value) == 'mask_from_face_indexes(face_indexes, self.topology)' for r in rets)
-        fidef = [n for n in walk_no_nested(um.node) if isinstance(n, ast.Assign) and norm_text(n.targets[0]) == 'face_indexes' and n.value is queries[um.qualname]]
+        faces = m.name('faces') or 'face_indexes'
+        ok = bool(rets) and all(m.match('return mask_from_face_indexes($faces, self.topology)', r, commit=False) for r in rets)
+        fidef = [n for n in walk_no_nested(um.node) if isinstance(n, ast.Assign) and norm_text(n.targets[0]) == faces and n.value is queries[um.qualname]]
         ctx.check('R07.6', ok and len(fidef) == 1, "the mask is built from the (buffered) hit faces", um, rets[0] if rets else um.node)
         bf = ctx.func(f"{UGRID}.buffer_faces")
-        txt = [norm_text(s) for s in bf.body]
-        ok = ('original_face_indexes = set(face_indexes.tolist())' in txt and 'face_node = topology.face_node_array' in txt
-              and 'included_nodes = set(numpy.unique(face_node[face_indexes].compressed()))' in txt)
+        bflow2 = ctx.flow(bf)
+        fip, tpp = bf.params[0], bf.params[1]
+        bm_ = Matcher(ctx, bf)
+        ok = bm_.has(f"$orig = set({fip}.tolist())", f"$fn = {tpp}.face_node_array", f"$nodes = set(numpy.unique($fn[{fip}].compressed()))")
         gens = [n for n in ast.walk(bf.node) if isinstance(n, ast.GeneratorExp)]
-        ok2 = False
-        if len(gens) == 1:
-            g = gens[0].generators[0]
-            ok2 = (norm_text(g.iter) == 'enumerate(face_node)' and norm_text(gens[0].elt) == 'face_index' and len(g.ifs) == 1
-                   and norm_text(g.ifs[0]) == 'face_index in original_face_indexes or bool(included_nodes.intersection(node_indexes.compressed()))')
+        gen = bm_.expr("($f for $f, $row in enumerate($fn) if $f in $orig or bool($nodes.intersection($row.compressed())))") if ok else None
+        fr_ = [c for c in calls_in(bf) if callee(ctx, bf, c) == 'numpy.fromiter']
+        ok2 = gen is not None and len(gens) == 1 and len(fr_) == 1 and bflow2.resolve(fr_[0].args[0]) is gen \
+            and bool(bf.returns()) and all(bflow2.reaches(r.value, lambda n: n is fr_[0]) for r in bf.returns())
         ctx.check('R07.6', ok and ok2, "one ring: the original faces plus every face sharing a node with them, in ascending face order", bf, gens[0] if gens else bf.node)
         mf = ctx.func(f"{UGRID}.mask_from_face_indexes")
         mflow = ctx.flow(mf)
